@@ -1,7 +1,7 @@
 // Injected as a CHILD module of src/versioning/file_iterators.rs in a scratch copy.
 // BOUNDED stand-in (never counted as proved): the k-way merge of MergingIterator over 2 children
-// with at most 2 entries each (one-byte user keys, symbolic sequence numbers), driven by a
-// symbolic sequence of 3 cursor moves after a symbolic initial positioning, compared after every
+// with at most 2 and 1 entries (one-byte user keys < 3, sequence numbers < 2), driven by a
+// symbolic sequence of 2 cursor moves after a symbolic initial positioning, compared after every
 // step with a cursor on the sorted union.
 use super::*;
 use crate::key::InternalKey;
@@ -61,14 +61,14 @@ impl RainDbIterator for VecIter {
 fn any_key() -> InternalKey {
     let u: u8 = kani::any();
     let s: u8 = kani::any();
-    kani::assume(u < 4 && s < 4);
+    kani::assume(u < 3 && s < 2);
     InternalKey::new(vec![u], s as u64, Operation::Put)
 }
 
-/// a sorted child with 0, 1 or 2 entries
-fn any_child() -> Vec<(InternalKey, Vec<u8>)> {
+/// a sorted child with at most `max` (<= 2) entries
+fn any_child(max: u8) -> Vec<(InternalKey, Vec<u8>)> {
     let n: u8 = kani::any();
-    kani::assume(n <= 2);
+    kani::assume(n <= max);
     let mut v = vec![];
     if n >= 1 {
         v.push((any_key(), vec![]));
@@ -82,10 +82,10 @@ fn any_child() -> Vec<(InternalKey, Vec<u8>)> {
 }
 
 #[kani::proof]
-#[kani::unwind(6)]
+#[kani::unwind(5)]
 fn merging_iterator_follows_sorted_union_bounded() {
-    let a = any_child();
-    let b = any_child();
+    let a = any_child(2);
+    let b = any_child(1);
     // the union, sorted; keys of different children are distinct
     let mut all: Vec<InternalKey> = vec![];
     for (k, _) in a.iter() {
@@ -137,7 +137,7 @@ fn merging_iterator_follows_sorted_union_bounded() {
         }
     }
     let mut step = 0;
-    while step < 3 {
+    while step < 2 {
         assert!(it.is_valid() == (pos < n));
         if pos < n {
             assert!(*it.current().unwrap().0 == all[pos]);
